@@ -41,6 +41,8 @@ func main() {
 		os.Exit(cmdExplain(os.Args[2:]))
 	case "mutant":
 		os.Exit(cmdMutant(os.Args[2:]))
+	case "try":
+		os.Exit(cmdTry(os.Args[2:]))
 	case "list":
 		ids := []string{}
 		for id := range properties {
@@ -126,7 +128,6 @@ func cmdCheck(args []string) int {
 		n := 0
 		for _, o := range c386.Obs {
 			if o.st != Discharged {
-				o.Rule = o.Rule
 				o.Construct = o.Construct + " [GOARCH=386]"
 				c.Obs = append(c.Obs, o)
 			}
@@ -139,6 +140,7 @@ func cmdCheck(args []string) int {
 	} else {
 		runSentinels(c, def, repo, extra)
 	}
+	dumpObs(c)
 	cmd := fmt.Sprintf("geoverif check %s --tier %s (repo=%s)", prop, tier, repo)
 	return c.Finalize(Finish{
 		Explanation: def.Explanation, Rule: def.RuleText, TrustedBase: def.Trusted,
